@@ -172,6 +172,24 @@ func enumQR(c *core.Ctx, classLen int, pairs bool, allLengths bool) {
 			}
 		}
 	}
+	// macro words over groups: numeric mode packs 3 characters, alphanumeric 2; a foreign character
+	// at every position of every group of a short content
+	numChunks := []string{"012", "+12", "-00", "1+2", "12+", "9", "+4", "-0", "+", "00-"}
+	alnChunks := []string{"AB", "A", "a", " $", "%a", "b:", "9"}
+	for lvl := 0; lvl < 4; lvl += 3 {
+		for _, mode := range []int{0, 1} {
+			Words(numChunks, 2, 3, func(w string, _ int) bool {
+				Run(c, &core.Case{Fam: "qr", S: []byte(w), P: []int{lvl, mode}})
+				return true
+			})
+		}
+		for _, mode := range []int{0, 2} {
+			Words(alnChunks, 2, 3, func(w string, _ int) bool {
+				Run(c, &core.Case{Fam: "qr", S: []byte(w), P: []int{lvl, mode}})
+				return true
+			})
+		}
+	}
 	// capacity grid: explicit modes and Auto on the same fillers
 	refModes := []int{1, 2, 4}
 	explicit := map[int]int{1: 1, 2: 2, 4: 3}
@@ -212,6 +230,7 @@ func c01Body(c *core.Ctx) {
 	enumQR(c, cl, true, c.Thorough())
 	c.R.Bound("class_words", fmt.Sprintf("all words <= %d over %q x 4 levels x 4 modes", cl, qrClass))
 	c.R.Bound("alphabet", "all 256 single bytes and all 45^2 alphanumeric pairs x 4 levels x 4 modes")
+	c.R.Bound("group_macro_words", "all words of 2..3 chunks over 10 numeric-group chunks (sign or foreign character at every position of a 3-digit group) and 7 alphanumeric-pair chunks, levels L and H, explicit mode and Auto")
 	if c.Thorough() {
 		c.R.Bound("capacity_grid", "every length 0..capacity(40-L)+1 for digit, alphanumeric and byte fillers x 4 levels, in the explicit mode and in Auto")
 	} else {
@@ -369,7 +388,9 @@ func c03Body(c *core.Ctx) {
 var pdfClass = []string{"A", "a", "1", "&", ";", "\n", ",", " ", "\x80", "٣"}
 var pdfMacro = []string{"ABCDE", "abcde", "12&45", "1;;;;", "1;;;;;", "ab;cd", "\x80", "\x81\x82", "\x83\x84\x85\x86\x87\x88", "\x89\x8a\x8b\x8c\x8d\x8e\x8f",
 	"123456789012", "1234567890123", strings.Repeat("7", 44), strings.Repeat("8", 45), "Z",
-	strings.Repeat("٣", 6), strings.Repeat("３", 13), "\x7f"}
+	strings.Repeat("٣", 6), strings.Repeat("３", 13), "\x7f",
+	// runs of six and more (the shortest the encoder treats as a text segment after a byte), repeated runs
+	"abcdef", "ABCDEF", "12&456", "hello!"}
 
 func enumPDF(c *core.Ctx, classLen, macroLen int, thorough bool) {
 	levels := []int{0, 2}
